@@ -96,6 +96,15 @@ func (d *Dispatcher) updateDispatchedAmount(
 	da := d.GetDispatchedAmount(ctx, sourceID, destID, denom)
 	amount := da.AmountDispatched
 
+	// The accumulated totals are bounded by the 256 bits of math.Int: report
+	// an error instead of letting Add panic in the middle of a dispatch.
+	if _, err := amount.Incoming.SafeAdd(newAmount.Incoming); err != nil {
+		return errorsmod.Wrap(err, "incoming dispatched amount")
+	}
+	if _, err := amount.Outgoing.SafeAdd(newAmount.Outgoing); err != nil {
+		return errorsmod.Wrap(err, "outgoing dispatched amount")
+	}
+
 	if newAmount.Incoming.IsPositive() {
 		amount.Incoming = amount.Incoming.Add(newAmount.Incoming)
 	}
